@@ -67,9 +67,9 @@ def gen_plan(seed: int, run: int, tier: str) -> dict:
     # RPC resets for proxy clients
     faults = []
     for c in names:
-        if clients[c]["kind"].startswith("grpc") and rng.random() < 0.4:
-            for _ in range(rng.randint(1, 2)):
-                faults.append({"client": c, "method": rng.choice(["GetTrials", "GetTrials", "GetTrial", "SetTrialStateValues", "CreateNewTrial"]), "nth": rng.randint(0, 4), "phase": rng.choice(["pre", "post"])})
+        if clients[c]["kind"].startswith("grpc") and rng.random() < 0.65:
+            for _ in range(rng.randint(1, 3)):
+                faults.append({"client": c, "method": rng.choice(["GetTrials", "GetTrials", "GetTrials", "GetTrials", "GetTrial", "SetTrialStateValues", "CreateNewTrial"]), "nth": rng.randint(0, 6), "phase": rng.choice(["pre", "post"])})
     cfg = {"mode": "clients", "deployment": "mixed", "p_line": 0.0, "p_seam": rng.choice([0.2, 0.5, 0.8]), "pool": rng.choice([1, 2, 3]), "busy_timeout": 60.0}
     return {"check": ID, "seed": seed, "run": run, "cfg": cfg, "clients": clients, "faults": faults, "sched": {"seed": rng.getrandbits(48)}}
 
